@@ -93,6 +93,9 @@ CONVERTERS = {
     'identity-on-code': lambda s: s.code,
     'wrapping': lambda s: f'# begin {s.name}\n{s.code}\n# end {s.name}',
     'multi-line': lambda s: 'if True:\n    ' + s.code.replace('\n', '\n    ') + '\nelse:\n    pass',
+    # inserted code that behaves differently if the build route compiles with other options (assert / __debug__)
+    'guarded': lambda s: s.code + '\nassert t < 0, "guard"',
+    'debug-dependent': lambda s: s.code + '\nif __debug__:\n    self._status[t] = "Q"',
 }
 
 
@@ -209,6 +212,7 @@ def run_shard(ctx):
     rp = gen.RandomPrograms(rng, max_depth=3, max_eqs=5, max_names=8, big_offsets=True, lhs_offsets=(0, 0, 0, -1))
     all_settings = [{}, {'lags': 0}, {'lags': 2, 'leads': 1}, {'min_lags': 3}, {'min_leads': 2, 'lags': 1}, {'leads': 0, 'min_lags': 1}]
     fixed = ['`self._Y[t] = self._Y[t] * 2`\n`self._Y[t] = self._Y[t] * 2`\nY = X', 'Y = X\n```\nself._Y[t] = self._Y[t] + 1\n```\n```\nself._Y[t] = self._Y[t] + 1\n```',
+             'Y = X\n```\nassert self._X[t] < 0.0, "X must be negative"\n```', 'Y = X\n```\nif __debug__:\n    self._Y[t] = self._Y[t] + 1\n```',
              '', '# only a comment\n', '```\npass\n```', '`x = 1`', '```\nself._Y[t] = 2.0\n```\nY = Y', 'Y = X', 'Y = 1\nZ = Y[-1] + {a} * <e>[1]']
     for i, script in enumerate(fixed):
         if ctx.mine(i):
